@@ -90,6 +90,24 @@ move=> hq hj; rewrite /Model.st_step /= /j_scale_curr qget_qtab // /j_div_c_qc q
 by rewrite /j_radius qget_qtab // /j_diag0 qget_qtab // /j_alpha_shift qget_qtab // /j_mul_qc_c qget_qtab.
 Qed.
 
+(* the new search vector and the updated solution, entry by entry *)
+Definition g_search s q j i : R :=
+  (cg (qp1 s) j i - g_sub s q j * xg (hp1 s) q j i - g_subsub s q j * xg (hp2 s) q j i) / g_dg s q j.
+
+Lemma step_hp1 s q j i : (q < Q)%N -> (j < C)%N -> (i < n)%N -> xg (hp1 (st_step s)) q j i = g_search s q j i.
+Proof.
+move=> hq hj hi; rewrite /Model.st_step /= /j_search xget_xtab // /j_sub1 qget_qtab // /j_diag1 qget_qtab //.
+rewrite /j_div_qc qget_qtab // /j_div_c_qc qget_qtab // /j_radius qget_qtab // /j_diag0 qget_qtab //.
+by rewrite /j_alpha_shift qget_qtab // /j_mul_qc_c !qget_qtab.
+Qed.
+
+Lemma step_sol s q j i : (q < Q)%N -> (j < C)%N -> (i < n)%N ->
+  xg (sol (st_step s)) q j i = xg (sol s) q j i + g_search s q j i * (qg (scp s) q j * g_cos s q j).
+Proof.
+move=> hq hj hi; rewrite -step_hp1 // -step_cp1 //.
+by rewrite /Model.st_step /= /j_sol xget_xtab // /j_supd xget_xtab // /j_mul_qc qget_qtab.
+Qed.
+
 Lemma g_rad_gt0 s q j : (j < C)%N -> 0 < g_rad s q j.
 Proof.
 move=> hj; rewrite /g_rad sqrtr_gt0.
